@@ -1231,6 +1231,8 @@ class Emitter:
         o.extend(protos)
         o.extend(self.emit_typeinfo_rt())
         o.extend(gdefs)
+        if self.opts.footprint:
+            o.extend(self.emit_footprint())
         o.extend(fbodies)
         o.extend(self.emit_ctor_runner())
         return '\n'.join(o) + '\n'
@@ -1373,6 +1375,33 @@ class Emitter:
                     init = init
                 defs.append('%s %s = %s;' % (cty, cn, init))
         return decls, defs
+
+    HARNESS_GLOBAL_RE = re.compile(r'^((_ZL\d+)?(g_|w_|r_|z_)|W$|R$|__vs_|__exc|__verif|__fp_|nd_val|_ZSt[34]c(err|out|in)$|_ZTV|_ZTI|_ZTS|\.str|_str|llvm\.|__dso_handle)')
+
+    def library_globals(self):
+        """mutable (non-constant) globals of the linked module that belong to the library: everything that is not a
+        harness / model / ABI object.  Recomputed on every run, so a new 'static' in c-dns shows up automatically."""
+        out = []
+        for name, g in self.m.globals.items():
+            if g['alias'] is not None or g['const'] or g['init'] is None:
+                continue
+            if self.HARNESS_GLOBAL_RE.search(name):
+                continue
+            out.append(name)
+        return out
+
+    def emit_footprint(self):
+        libs = self.library_globals()
+        out = ['/* C20 footprint monitor: library-owned mutable globals = %s */' % (', '.join(libs) or '(none)')]
+        conds = ' && '.join('__CPROVER_POINTER_OBJECT(p) != __CPROVER_POINTER_OBJECT((void*)&%s)' % self.gn(n) for n in libs) or '1'
+        out.append('#ifdef __CPROVER__')
+        out.append('void __fp_store(void *p) { __CPROVER_assert(%s, "C20: no store to a library-owned mutable global outside its dynamic initialiser"); }' % conds)
+        out.append('void __fp_load(void *p) { (void)p; }')
+        out.append('#else')
+        out.append('void __fp_store(void *p) { (void)p; } void __fp_load(void *p) { (void)p; }')
+        out.append('#endif')
+        out.append('const char *__fp_inventory = "%s";' % ' '.join(libs))
+        return out
 
     def emit_ctor_runner(self):
         g = self.m.globals.get('llvm.global_ctors')
@@ -1766,6 +1795,10 @@ class FuncEmitter:
         order = list(reversed(post))
         return [bymap[n] for n in order]
 
+    def is_initialiser(self):
+        n = self.f.name
+        return n.startswith(('_GLOBAL__sub_I', '__cxx_global_var_init', '_GLOBAL__I'))
+
     def dummy_ret(self):
         t = self.f.ret
         if t.k == 'void':
@@ -1832,7 +1865,7 @@ class FuncEmitter:
                 else:
                     B.append('%s = *%s;' % (self.lv(i.res), em.val(a[0], self)))
         elif op == 'store':
-            if em.opts.footprint:
+            if em.opts.footprint and not self.is_initialiser():
                 B.append('__fp_store((void*)%s);' % em.val(a[1], self))
             ta = self.typed_leaf(a[1], a[0].t)
             if ta is not None:
@@ -2136,7 +2169,7 @@ class FuncEmitter:
                 if dt is not None and st is not None and dt[1] == st[1] and dt[1].k in ('named', 'lit', 'arr'):
                     try:
                         if em.size_align(dt[1])[0] == n.d:
-                            if em.opts.footprint:
+                            if em.opts.footprint and not self.is_initialiser():
                                 B.append('__fp_store((void*)%s);' % dt[0])
                             B.append('*%s = *%s;' % (dt[0], st[0]))
                             return
@@ -2145,12 +2178,12 @@ class FuncEmitter:
             fn = '__v_memmove' if 'memmove' in name else '__v_memcpy'
             if n.k == 'int':
                 fn += '_c'     # constant length: CBMC's built-in model, no loop to unwind
-            if em.opts.footprint:
+            if em.opts.footprint and not self.is_initialiser():
                 B.append('__fp_store((void*)%s);' % v(0))
             B.append('%s((u8*)%s, (const u8*)%s, (u64)%s);' % (fn, v(0), v(1), v(2)))
             return
         if name.startswith('llvm.memset.'):
-            if em.opts.footprint:
+            if em.opts.footprint and not self.is_initialiser():
                 B.append('__fp_store((void*)%s);' % v(0))
             d, n = args[0], args[2]
             if n.k == 'int' and args[1].k == 'int' and args[1].d == 0:
